@@ -43,7 +43,7 @@ inline std::function<json()> snapshot;
     j["snap"]     = snapshot ? snapshot() : json::array();
     std::string s = j.dump();
     if (child_fd >= 0) { (void)!::write(child_fd, s.data(), s.size()); }
-    ::_exit(42);
+    vh_exit(42);
 }
 } // namespace vhc
 namespace etl {
@@ -332,7 +332,7 @@ int main(int argc, char** argv)
             j["snap"]    = pre;
             std::string s = j.dump();
             (void)!::write(fds[1], s.data(), s.size());
-            ::_exit(0);
+            vh_exit(0);
         }
         ::close(fds[1]);
         std::string buf;
@@ -392,7 +392,7 @@ int main(int argc, char** argv)
                 (void)dispatch(fam + ".noop", cap, n, a, b, pre);
                 std::string s = pre.dump();
                 (void)!::write(f2[1], s.data(), s.size());
-                ::_exit(0);
+                vh_exit(0);
             }
             ::close(f2[1]);
             std::string b2;
